@@ -31,14 +31,15 @@ def run(tier, seed):
     rt, done, mism = vlib.trace_validate("Trace_C09", tr, wd, "trace")
     vlib.require(done["n"] == summ["events"], "trace length mismatch")
     v.add_tlc(rt)
-    v.add_report({"evaluations": summ["events"], "nontrivial": summ["nontrivial"], "samples": summ["samples"], "mismatches": mism},
+    v.add_report({"evaluations": summ["events"], "nontrivial": summ["nontrivial"], "samples": summ["samples"], "mismatches": mism,
+                  "counters": summ.get("counters", {})},
                  "M3:Trace_C09", traces=1)
     v.assumptions += ["bytes are opaque to the specification: images are compared through a 64-bit FNV digest + length",
                       "hash-seed variation comes from fresh std RandomState maps in-process and from child processes"]
     return v.finish("model_checking",
                     "%d rule lists (synthetic lists of 180-430 rules built to put many unfusable same-token rules, fusable groups, tokenless multi-domain "
                     "rules and every cosmetic kind into every container; random 1500-line samples of easylist.txt and uBO filters.txt) x 3 (debug, optimise) "
-                    "configurations; each serialized by 3 fresh in-process builds, %d child processes and after 1 and 2 reloads; distinct_nontrivial = "
+                    "configurations, plus 25x as many sparse lists (1-6 rules of 1-3 of 26 rule kinds, so that most containers of the image are empty, in-process only); each serialized by 3 fresh in-process builds, %d child processes and after 1 and 2 reloads; distinct_nontrivial = "
                     "distinct images produced" % (nlists, children), exhaustive=False)
 
 
